@@ -159,6 +159,36 @@ def rule_c(R, ctx):
     R.floor("C14.c", "IndexScope::Relative constructions in at()", n, 2)
     fb = fn.calls_to("yrs::sticky_index::IndexScope::from_branch")
     R.ob("C14.c", fn, "fallback", len(fb) >= 2, "from_branch fallbacks: %d" % len(fb))
+    # every producer of a StickyIndex in at(): StickyIndex::new(scope, assoc) with a scope checked above (Relative from the walk, or
+    # from_branch); any other constructor (from_id, from_type, a struct literal) must take its anchor from the walk as well
+    k = 0
+    for cs in fn.calls():
+        if str(cs.t.get("dest_ty", "")) != "yrs::sticky_index::StickyIndex":
+            continue
+        k += 1
+        name = F.strip_generics(cs.name)
+        site = "producer:%s#%d" % (name.rsplit("::", 1)[-1], k)
+        if name.endswith("StickyIndex::new"):
+            sc = simp_deep(v.arg(cs, 0, 20))
+            alts = sc[1] if sc[0] == "phi" else (sc,)
+            ok = all(term_has_call(a, "yrs::sticky_index::IndexScope::from_branch") or term_has_call(a, "yrs::block_iter::BlockIter::next_item") for a in alts)
+            walked = True
+            if any(term_has_call(a, "yrs::block_iter::BlockIter::next_item") for a in alts):
+                tf = fn.calls_to("yrs::block_iter::BlockIter::try_forward")
+                walked = bool(tf) and any(fn.cfg().dominates(t_.bb, cs.bb) and any(lit_call(l, "yrs::block_iter::BlockIter::try_forward", True) for l in v.guards(cs.bb)) for t_ in tf)
+            R.ob("C14.c", fn, site, ok and walked, "StickyIndex::new(%s)%s" % (sshow(sc, 5), "" if walked else " — not behind a successful BlockIter::try_forward(index)"), cs.loc())
+        else:
+            anchors = [simp_deep(v.arg(cs, i, 20)) for i in range(len(cs.args))]
+            ok = any(term_has_call(a, "yrs::block_iter::BlockIter::next_item") for a in anchors)
+            R.ob("C14.c", fn, site, ok, "%s(%s): the anchor comes from the liveness-aware walk (BlockIter::next_item)" % (name.rsplit("::", 1)[-1], sshow(anchors[0], 5)) if ok else
+                 "%s(%s): the anchor does not come from the walk that skips tombstones and formatting marks — the index sticks to "
+                 "whatever physical item is there, not to the visible element at that position" % (name.rsplit("::", 1)[-1], ", ".join(sshow(a, 4) for a in anchors)), cs.loc())
+    for i, j, st in fn.stmts():
+        rv = st["rv"]
+        if "agg" in rv and rv["agg"].get("adt") == "yrs::sticky_index::StickyIndex":
+            k += 1
+            R.ob("C14.c", fn, "producer:literal#%d" % k, False, "a StickyIndex is built by a struct literal in at(): its scope is not covered by the anchor rule", "%s:%s" % (fn.file, st["line"]))
+    R.floor("C14.c", "producers of a StickyIndex in at()", k, 3)
 
 
 def rule_d(R, ctx):
